@@ -52,6 +52,70 @@ type WOp struct {
 	// successive writes may carry equal or decreasing times)
 	WT *int  `json:"wt,omitempty"`
 	In []WOp `json:"in,omitempty"`
+	// Sp: the caller's spelling of the id when the collection has an id interceptor (0 = the stored one, 1.. = another
+	// spelling the interceptor maps to it)
+	Sp int `json:"sp,omitempty"`
+}
+
+// id interceptors (Scenario.Icpt): "lower" = strings.ToLower (the case-insensitive collection of the option's
+// documentation), "slash" = a trailing "/" is dropped. spell gives the caller's spelling number sp of item id; every
+// spelling is mapped to the stored id idName(id) by the interceptor, and only the stored id may ever come back (events, List).
+func icptFunc(kind string) func(string) string {
+	switch kind {
+	case "lower":
+		return strings.ToLower
+	case "slash":
+		return func(s string) string { return strings.TrimSuffix(s, "/") }
+	}
+	return nil
+}
+
+var icptKinds = []string{"lower", "slash"}
+
+func spell(kind string, id, sp int) string {
+	if sp%2 == 0 || kind == "" {
+		return idName(id)
+	}
+	switch kind {
+	case "lower":
+		return "I" + strconv.Itoa(id)
+	case "slash":
+		return idName(id) + "/"
+	}
+	return idName(id)
+}
+
+// decodeID: the model id of an event's id: the stored spelling "i<k>" gives "<k>"; anything else (a caller's spelling that
+// leaked into an event) stays as it is and so names an item no view may hold
+func decodeID(s string) string {
+	if t := strings.TrimPrefix(s, "i"); t != s {
+		if _, err := strconv.Atoi(t); err == nil {
+			return t
+		}
+	}
+	return "?" + s
+}
+
+// spellAll: the scenario on a collection with an id interceptor: every call of a writer (nested ones too) and every PullID
+// names its item in a spelling picked here
+func spellOps(rng *rand.Rand, ops []WOp) {
+	for i := range ops {
+		ops[i].Sp = rng.Intn(2)
+		spellOps(rng, ops[i].In)
+	}
+}
+
+func (sc *Scenario) spellAll(rng *rand.Rand) {
+	if sc.Res != "coll" {
+		return
+	}
+	sc.Icpt = icptKinds[rng.Intn(len(icptKinds))]
+	for t := range sc.Writers {
+		spellOps(rng, sc.Writers[t])
+	}
+	for i := range sc.Subs {
+		sc.Subs[i].Sp = rng.Intn(2)
+	}
 }
 
 var clockBase = time.Date(2020, 1, 1, 0, 0, 0, 0, time.UTC)
@@ -100,6 +164,7 @@ type SubSpec struct {
 	UO  bool `json:"uo,omitempty"`  // WithUpdatesOnly
 	BP  bool `json:"bp,omitempty"`  // WithBackpressure
 	OID *int `json:"oid,omitempty"` // PullID(id) instead of Pull
+	Sp  int  `json:"sp,omitempty"`  // the spelling of the PullID id (see WOp.Sp)
 }
 
 type Scenario struct {
@@ -115,6 +180,8 @@ type Scenario struct {
 	// Clock: the resource's clock (see scriptClock); Eq: "e" = the resource is created WithNoDuplicates
 	Clock string `json:"clock,omitempty"`
 	Eq    string `json:"eq,omitempty"`
+	// Icpt: the collection is created WithIDInterceptor (see icptFunc); callers spell ids as WOp.Sp / SubSpec.Sp say
+	Icpt string `json:"icpt,omitempty"`
 }
 
 func b01(b bool) string {
@@ -211,14 +278,18 @@ type world struct {
 	val   *resource.Value
 	maxID int    // contents() looks at ids 0..maxID-1 (0 = 9)
 	drain func() // the nested step "R" of an "r" operation: the paused consumer drains
+	icpt  string // the collection's id interceptor ("" = none)
 }
+
+// name: how a reader of the harness itself spells item id (with an interceptor: not the stored spelling)
+func (w *world) name(id int) string { return spell(w.icpt, id, 1) }
 
 // get is Get of one id (Value: id 0)
 func (w *world) get(id int) (int64, bool) {
 	if w.res == "value" {
 		return msgVal(w.val.Get())
 	}
-	m, ok := w.coll.Get(idName(id))
+	m, ok := w.coll.Get(w.name(id))
 	if !ok {
 		return 0, false
 	}
@@ -229,7 +300,7 @@ func (w *world) get(id int) (int64, bool) {
 func idName(id int) string { return "i" + strconv.Itoa(id) }
 
 func newWorld(sc Scenario) *world {
-	w := &world{res: sc.Res}
+	w := &world{res: sc.Res, icpt: sc.Icpt}
 	var common []resource.Option
 	if sc.Clock != "" {
 		common = append(common, resource.WithClock(&scriptClock{kind: sc.Clock}))
@@ -246,8 +317,11 @@ func newWorld(sc Scenario) *world {
 		return w
 	}
 	opts := common
+	if f := icptFunc(sc.Icpt); f != nil {
+		opts = append(opts, resource.WithIDInterceptor(f))
+	}
 	for _, id := range sc.initIDs() {
-		opts = append(opts, resource.WithInitialRecord(idName(id), wrapperspb.Int64(sc.Init[strconv.Itoa(id)])))
+		opts = append(opts, resource.WithInitialRecord(spell(sc.Icpt, id, id), wrapperspb.Int64(sc.Init[strconv.Itoa(id)])))
 	}
 	w.coll = resource.NewCollection(opts...)
 	return w
@@ -295,14 +369,14 @@ func (w *world) exec(o WOp) error {
 	case "c":
 		opts = append(opts, resource.WithExpectedValue(wrapperspb.Int64(o.E)))
 	case "d":
-		_, err := w.coll.Delete(idName(o.ID), opts...)
+		_, err := w.coll.Delete(spell(w.icpt, o.ID, o.Sp), opts...)
 		return err
 	}
 	if w.res == "value" {
 		_, err := w.val.Set(msg, opts...)
 		return err
 	}
-	_, err := w.coll.Update(idName(o.ID), msg, opts...)
+	_, err := w.coll.Update(spell(w.icpt, o.ID, o.Sp), msg, opts...)
 	return err
 }
 
@@ -319,7 +393,7 @@ func (w *world) contents() map[string]int64 {
 		n = 9
 	}
 	for id := 0; id < n; id++ {
-		if m, ok := w.coll.Get(idName(id)); ok {
+		if m, ok := w.coll.Get(w.name(id)); ok {
 			v, _ := msgVal(m)
 			res[strconv.Itoa(id)] = v
 		}
@@ -397,7 +471,7 @@ func (w *world) subscribe(ctx context.Context, spec SubSpec) *consumer {
 		}()
 	case spec.OID != nil:
 		id := *spec.OID
-		ch := w.coll.PullID(ctx, idName(id), opts...)
+		ch := w.coll.PullID(ctx, spell(w.icpt, id, spec.Sp), opts...)
 		go func() {
 			defer close(c.closed)
 			for e := range ch {
@@ -414,7 +488,7 @@ func (w *world) subscribe(ctx context.Context, spec SubSpec) *consumer {
 					c.add(ev{}, true)
 					continue
 				}
-				id := strings.TrimPrefix(e.Id, "i")
+				id := decodeID(e.Id)
 				if e.ChangeType == types.ChangeType_REMOVE {
 					c.add(ev{id: id, del: true}, false)
 				} else {
@@ -439,7 +513,7 @@ func (w *world) sentinels(sc Scenario) {
 	}
 	for _, s := range sc.Subs {
 		if s.OID != nil {
-			w.coll.Update(idName(*s.OID), wrapperspb.Int64(sentinelVal), resource.WithCreateIfAbsent())
+			w.coll.Update(spell(w.icpt, *s.OID, s.Sp+1), wrapperspb.Int64(sentinelVal), resource.WithCreateIfAbsent())
 		}
 	}
 	w.coll.Update("zz", wrapperspb.Int64(sentinelVal), resource.WithCreateIfAbsent())
@@ -891,13 +965,32 @@ func judge(sc Scenario, o *Outcome, mode string) *verdict {
 			continue
 		}
 		view, touched, hist := c.fold()
+		// the ids judged: first whatever an event named that is not a stored id (a caller's spelling), then 0..8
+		var keys []string
+		for k := range touched {
+			if strings.HasPrefix(k, "?") {
+				keys = append(keys, k)
+			}
+		}
+		sort.Strings(keys)
 		for id := 0; id < 9; id++ {
-			k := strconv.Itoa(id)
-			if c.spec.OID != nil && *c.spec.OID != id {
+			keys = append(keys, strconv.Itoa(id))
+		}
+		for _, k := range keys {
+			if c.spec.OID != nil && strconv.Itoa(*c.spec.OID) != k {
 				continue
 			}
 			if c.spec.UO && !touched[k] {
 				continue // an updates-only subscriber knows nothing about ids it got no event for
+			}
+			if strings.HasPrefix(k, "?") {
+				var hs []string
+				for _, e := range hist {
+					hs = append(hs, e.String())
+				}
+				return &verdict{fmt.Sprintf("C03/%s/%s/event-id-not-stored", sc.Res, mode),
+					fmt.Sprintf("subscriber %d (%+v) of a collection with the id interceptor %q received an event for item %q, which is not an id the collection stores anything under (a caller's spelling)", i, c.spec, sc.Icpt, k[1:]),
+					"view = " + showView(o.Contents), "view = " + showView(view) + " from events " + strings.Join(hs, ";")}
 			}
 			want, wok := o.Contents[k]
 			got, gok := view[k]
@@ -1031,6 +1124,10 @@ func genScenario(rng *rand.Rand, maxWriters int) Scenario {
 	}
 	if allBP && rng.Intn(3) == 0 {
 		sc.Eq = "e"
+	}
+	// a collection with an id interceptor, every caller spelling the ids its own way
+	if sc.Res == "coll" && rng.Intn(3) == 0 {
+		sc.spellAll(rng)
 	}
 	return sc
 }
@@ -1230,6 +1327,9 @@ func main() {
 		{Res: "value", Init: map[string]int64{"0": 1}, Writers: [][]WOp{{{K: "a", ID: 0, V: 1}, {K: "a", ID: 0, V: 1}}}, Subs: []SubSpec{{BP: true}, {UO: true, BP: true}}},
 		// no duplicates: an equal rewrite, a delete and a re-creation with the same body, the subscriber registering anywhere
 		{Res: "coll", Init: map[string]int64{"0": 1}, Writers: [][]WOp{{{K: "s", ID: 0, V: 1}, {K: "d", ID: 0}, {K: "s", ID: 0, V: 1}}}, Subs: []SubSpec{{BP: true}}, Eq: "e"},
+		// id interceptors: the item is created, changed and deleted under spellings that are not the stored one
+		{Res: "coll", Init: map[string]int64{"1": 1}, Writers: [][]WOp{{{K: "s", ID: 0, V: 2, Sp: 1}, {K: "d", ID: 1, Sp: 1}}}, Subs: []SubSpec{{BP: true}}, Icpt: "lower"},
+		{Res: "coll", Init: map[string]int64{"0": 1}, Writers: [][]WOp{{{K: "d", ID: 0, Sp: 1}, {K: "a", ID: 0, V: 3, Sp: 1}}}, Subs: []SubSpec{{BP: false}}, Icpt: "slash"},
 	}
 	nAll := 0
 	for _, sc := range small {
@@ -1268,7 +1368,7 @@ func main() {
 			tie.Fail(err)
 		} else {
 			for i, c := range cases {
-				in := map[string]any{"res": c.sc.Res, "init": c.sc.Init, "writers": c.sc.Writers, "subs": c.sc.Subs, "sched": c.o.Sched, "clock": c.sc.Clock, "eq": c.sc.Eq}
+				in := map[string]any{"res": c.sc.Res, "init": c.sc.Init, "writers": c.sc.Writers, "subs": c.sc.Subs, "sched": c.o.Sched, "clock": c.sc.Clock, "eq": c.sc.Eq, "icpt": c.sc.Icpt}
 				model := maskModel(answers[i], c.sc)
 				code := codeCanon(c.sc, c.o)
 				tie.Record(lines[i]+strings.Join(c.o.Sched, ","), nontrivial(c.o.Sched), in, model, code)
@@ -1284,7 +1384,7 @@ func main() {
 		}
 	}
 	for _, c := range cases {
-		in := map[string]any{"mode": "k4", "res": c.sc.Res, "init": c.sc.Init, "writers": c.sc.Writers, "subs": c.sc.Subs, "sched": c.o.Sched, "clock": c.sc.Clock, "eq": c.sc.Eq}
+		in := map[string]any{"mode": "k4", "res": c.sc.Res, "init": c.sc.Init, "writers": c.sc.Writers, "subs": c.sc.Subs, "sched": c.o.Sched, "clock": c.sc.Clock, "eq": c.sc.Eq, "icpt": c.sc.Icpt}
 		mon.Eval(c.sc.driverLine(c.o.Sched)+strings.Join(c.o.Sched, ","), nontrivial(c.o.Sched), nil)
 		if c.o.Concurrent {
 			mon.Count("two-publications-in-flight")
@@ -1328,6 +1428,9 @@ func main() {
 	tm("dup", t0)
 	tablesTie(f, res)
 	t0 = time.Now()
+	pullidMonitor(f, res, rng)
+	tm("pullid", t0)
+	t0 = time.Now()
 	stress(f, res, rng)
 	tm("stress", t0)
 	if err := res.Write(f.Out); err != nil {
@@ -1350,7 +1453,7 @@ func churnFamily(f lib.Flags, res *lib.Result, rng *rand.Rand, monName, tieName,
 	ctl.Close()
 	ctie := res.Tie(tieName, "K4", tieRule)
 	input := func(c pending) map[string]any {
-		return map[string]any{"mode": "k4", "churn": true, "max_gone": c.sc.MaxGone, "res": c.sc.Res, "init": c.sc.Init, "writers": c.sc.Writers, "subs": c.sc.Subs, "sched": c.o.Sched, "clock": c.sc.Clock, "eq": c.sc.Eq}
+		return map[string]any{"mode": "k4", "churn": true, "max_gone": c.sc.MaxGone, "res": c.sc.Res, "init": c.sc.Init, "writers": c.sc.Writers, "subs": c.sc.Subs, "sched": c.o.Sched, "clock": c.sc.Clock, "eq": c.sc.Eq, "icpt": c.sc.Icpt}
 	}
 	// non-trivial: a subscriber registered after a cancellation, or (several writers) a delivery after a collect
 	// that happened while another publication was in flight
@@ -1481,7 +1584,7 @@ func stress(f lib.Flags, res *lib.Result, rng *rand.Rand) {
 			mon.Count(mode)
 			if v := judge(sc, o, "stress"); v != nil {
 				sig := strings.Replace(v.sig, "/stress/", "/"+mode+"/", 1)
-				in := map[string]any{"mode": "stress", "res": sc.Res, "init": sc.Init, "writers": sc.Writers, "subs": sc.Subs, "clock": sc.Clock, "eq": sc.Eq}
+				in := map[string]any{"mode": "stress", "res": sc.Res, "init": sc.Init, "writers": sc.Writers, "subs": sc.Subs, "clock": sc.Clock, "eq": sc.Eq, "icpt": sc.Icpt}
 				mon.Violate(sig, v.what, in, v.expected, v.observed)
 				break
 			}
@@ -1501,7 +1604,7 @@ func replay(f lib.Flags) int {
 		Mode string `json:"mode"`
 		Scenario
 	}
-	if err := json.Unmarshal(raw, &in); err != nil || (len(in.Writers) == 0 && in.Mode != "lossy-slow" && in.Mode != "masks" && in.Mode != "lossy-seed-dup" && in.Mode != "include-table" && in.Mode != "merge-table" && in.Mode != "adapter-openclose") {
+	if err := json.Unmarshal(raw, &in); err != nil || (len(in.Writers) == 0 && in.Mode != "lossy-slow" && in.Mode != "masks" && in.Mode != "lossy-seed-dup" && in.Mode != "include-table" && in.Mode != "merge-table" && in.Mode != "adapter-openclose" && in.Mode != "pullid") {
 		fmt.Println("replay: no concrete input in file (", rp.Kind, ")")
 		return 2
 	}
@@ -1566,6 +1669,27 @@ func replay(f lib.Flags) int {
 			}
 		}
 		fmt.Println("replay: property holds on this input now (50 repetitions)")
+		return 0
+	}
+	if in.Mode == "pullid" {
+		var ps PidScenario
+		if err := json.Unmarshal(raw, &ps); err != nil {
+			lib.Fatal(err)
+		}
+		if ps.Init == nil {
+			ps.Init = map[string]int64{}
+		}
+		for i := 0; i < 20; i++ {
+			r := runPid(ps)
+			if i == 0 {
+				fmt.Printf("replay PullID stream %s -> values %v, closed %v, store %s\n", ps.key(), r.vals, r.closed, showView(r.contents))
+			}
+			if v := judgePid(ps, r); v != nil {
+				fmt.Printf("STILL FAILS %s: %s (expected %s, observed %s)\n", v.sig, v.what, v.expected, v.observed)
+				return 1
+			}
+		}
+		fmt.Println("replay: property holds on this input now (20 repetitions)")
 		return 0
 	}
 	if in.Mode == "lossy-seed-dup" {
